@@ -8,7 +8,7 @@ trap 'git -C /repo worktree remove --force "$WT" >/dev/null 2>&1; rm -rf "$WT" "
 DEMO=$(ls $D/demo.py $D/test_demo.py 2>/dev/null | head -1)
 PYI=/venv/bin/python; grep -q '"interpreter": *"python3-vt"' "$D/meta.json" 2>/dev/null && PYI=python3-vt
 OUTD="$WT-out"; mkdir -p "$OUTD"
-run_demo() { (cd "$WT" && sed -e "s#/tmp/seed4-$PROP-out#$OUTD#g" -e "s#/tmp/seed4-$PROP#$WT#g" -e "s#/tmp/seed3-$PROP#$WT#g" -e "s#/tmp/seed2-$PROP#$WT#g" -e "s#/tmp/seed-$PROP#$WT#g" "$DEMO" > "$WT/_demo.py" && PYTHONPATH="$WT" timeout 300 $PYI "$WT/_demo.py" >/dev/null 2>&1); echo $?; }
+run_demo() { (cd "$WT" && sed -e "s#/tmp/seed5-$PROP-out#$OUTD#g" -e "s#/tmp/seed5-$PROP#$WT#g" -e "s#/tmp/seed4-$PROP-out#$OUTD#g" -e "s#/tmp/seed4-$PROP#$WT#g" -e "s#/tmp/seed3-$PROP#$WT#g" -e "s#/tmp/seed2-$PROP#$WT#g" -e "s#/tmp/seed-$PROP#$WT#g" "$DEMO" > "$WT/_demo.py" && PYTHONPATH="$WT" timeout 300 $PYI "$WT/_demo.py" >/dev/null 2>&1); echo $?; }
 C=$(run_demo)
 if ! git -C "$WT" apply "$D/patch.diff" 2>/dev/null; then echo "$PROP $(basename $D): PATCH DOES NOT APPLY"; exit 0; fi
 M=$(run_demo)
